@@ -434,7 +434,7 @@ def same_obs(x, y):
     return builtins.all(G.same_val(p, q) if not isinstance(p, (int, str)) or isinstance(p, bool) else p == q for p, q in builtins.zip(x[1:], y[1:]))
 
 
-def gen_case(rng, tier, with_close):
+def gen_case(rng, tier, with_close, primitives=False):
     n = rng.randrange(0, 11)
     nk = rng.choice([2, 3, 4])
     items = [Obj(i + 1, rng.randrange(nk)) for i in range(n)]
@@ -445,6 +445,14 @@ def gen_case(rng, tier, with_close):
             keys += [rng.randrange(nk)] * rng.randrange(1, 4)
         items = [Obj(i + 1, keys[i]) for i in range(n)]
     key = rng.choice(KEYS)
+    if primitives and rng.random() < 0.35:
+        # plain values grouped by themselves, None among them: an item is whatever the source hands out
+        key = None
+        pool = [None, 0, 1, 2, (), (1,)]
+        items = []
+        while len(items) < n:
+            items += [rng.choice(pool)] * rng.randrange(1, 4)
+        items = items[:n]
     nops = rng.randrange(1, 16)
     ops = []
     created = 0
@@ -490,7 +498,7 @@ def run(tier, seed):
     cases.append((A, ("KeyDiv", 2), [("adv",), ("grp", 0), ("adv",), ("grp", 0), ("grp", 1), ("adv",), ("grp", 1)]))
     nrand = 1500 * common.scale(rep) if tier == "quick" else 40000
     for _ in range(nrand):
-        cases.append(gen_case(rng, tier, with_close=rng.random() < 0.3))
+        cases.append(gen_case(rng, tier, with_close=rng.random() < 0.3, primitives=True))
     small = [[Obj(i + 1, k) for i, k in enumerate(ks)] for n in range(0, 5) for ks in itertools.product(range(2), repeat=n)]
     for ops in exhaustive_ops(4 if tier == "quick" else 6):
         items = small[rng.randrange(len(small))] if tier == "quick" else None
